@@ -660,6 +660,14 @@ impl Gen {
                             2 => calls.push(CopyCall::ChmodFiles(self.mode(rng))),
                             _ => {},
                         }
+                        if rng.chance(1, 6) {
+                            // chained option calls: the last chmod_* call decides
+                            calls.push(match rng.below(3) {
+                                0 => CopyCall::ChmodAll(self.mode(rng)),
+                                1 => CopyCall::ChmodDirs(self.mode(rng)),
+                                _ => CopyCall::ChmodFiles(self.mode(rng)),
+                            });
+                        }
                         if rng.chance(1, 3) {
                             calls.push(CopyCall::Follow(rng.chance(3, 4)));
                         }
